@@ -332,6 +332,67 @@ def dead_end_prefix(case, limit=3000):
     return False
 
 
+def cyclic_choice(case):
+    """K9 guard: some option of a selection choice potentially reaches (any option of any choice may be taken) the
+    originating node of that same choice"""
+    succ = {}
+    for s, t in case.get('edges', []):
+        succ.setdefault(s, set()).add(t)
+    for sc in case.get('sel', []):
+        succ.setdefault(sc['origin'], set()).add(sc['id'])
+        for o in sc['options']:
+            succ.setdefault(sc['id'], set()).add(o)
+    for sc in case.get('sel', []):
+        for o in sc['options']:
+            seen = {o}
+            todo = [o]
+            while todo:
+                x = todo.pop()
+                for y in succ.get(x, ()):
+                    if y not in seen:
+                        seen.add(y)
+                        todo.append(y)
+            if sc['origin'] in seen:
+                return True
+    return False
+
+
+def shared_option(case):
+    """K2 guard: a node that is an option of two different selection choices"""
+    seen = {}
+    for sc in case.get('sel', []):
+        for o in set(sc['options']):
+            if o in seen:
+                return True
+            seen[o] = sc['id']
+    return False
+
+
+def guards(case):
+    """ids of the known-finding classes this case falls into"""
+    case = {k: v for k, v in case.items() if not k.startswith('_')}
+    out = set()
+    if potential_nodes(case) != all_ids(case):
+        out.add('K1')
+    if self_conflicting_option(case):
+        out.add('K7')
+    if dead_end_prefix(case):
+        out.add('K8')
+    if cyclic_choice(case):
+        out.add('K9')
+    if shared_option(case):
+        out.add('K2')
+    return out
+
+
+def match_known(case, fail, known):
+    g = guards(case)
+    for k in known:
+        if k.get('guard') in g:
+            return k
+    return None
+
+
 def all_ids(case):
     return set(range(case['n'])) | {sc['id'] for sc in case.get('sel', [])} | {cc['id'] for cc in case.get('conn', [])}
 
